@@ -93,6 +93,14 @@ structure WState where
   stm : Option OpenStm
   after : List (Nat × Nat × PutObj)
   opts : WOpts
+  /-- ghost: the plain objects written so far with their references, in the order in which
+      they reached the file (no influence on the output; used to state what a reader must find) -/
+  doc : List (Nat × Nat × Obj) := []
+  /-- ghost: the bytes handed to `streamWriter.Write` for the open stream so far -/
+  sdata : Bytes := []
+  /-- ghost: the stream objects completed so far: reference, dictionary without `/Length`, and
+      the bytes written to the stream -/
+  sdoc : List (Nat × Nat × List (Bytes × Obj) × Bytes) := []
   deriving Repr, Inhabited
 
 /-! ### byte literals -/
@@ -144,7 +152,8 @@ def putPlain (s : WState) (num gen : Nat) (o : Obj) : Except Err WState :=
     match wformat s.opts [o] with
     | none => .error .other
     | some body =>
-      .ok (emit { s with xref := x, nextRef := n } (objHeader num gen ++ body ++ kEndobj ++ prettyNL s.opts))
+      .ok (emit { s with xref := x, nextRef := n, doc := s.doc ++ [(num, gen, o)] }
+        (objHeader num gen ++ body ++ kEndobj ++ prettyNL s.opts))
 
 /-- a dictionary with `/Length` formatted as the given bytes: the output and the offset of
     the value in it (`formatDict` handles the entries one after the other) -/
@@ -169,7 +178,7 @@ def startWriting (s : WState) (st : OpenStm) (known : Option Nat) : Except Err (
   -- the value printed for /Length, and the bookkeeping of the Placeholder
   let sel : Option (WState × OpenStm × Bytes) :=
     match st.userLen with
-    | some l => some (s, st, intToDec l)
+    | some l => some (s, st, intDec l)
     | none =>
       match known with
       | some l => some (s, st, decOf l)
@@ -197,7 +206,7 @@ def openStream (s : WState) (num gen : Nat) (dict : List (Bytes × Obj)) (userLe
     match setXRef s.xref s.nextRef num { inStream := 0, pos := s.pos, gen := gen } with
     | none => .error .other
     | some (x, n) =>
-      .ok { s with xref := x, nextRef := n,
+      .ok { s with xref := x, nextRef := n, sdata := [],
                    stm := some { num := num, gen := gen, dict := dict, userLen := userLen, buf := [],
                                  started := false, startPos := 0, patchPos := none, lenRef := none } }
 
@@ -206,12 +215,13 @@ def streamWrite (s : WState) (p : Bytes) : Except Err WState :=
   match s.stm with
   | none => .error .other
   | some st =>
-    if st.started then .ok (emit s p)
-    else if st.buf.length + p.length < 1024 then .ok { s with stm := some { st with buf := st.buf ++ p } }
+    if st.started then .ok (emit { s with sdata := s.sdata ++ p } p)
+    else if st.buf.length + p.length < 1024 then
+      .ok { s with stm := some { st with buf := st.buf ++ p }, sdata := s.sdata ++ p }
     else
       match startWriting s st none with
       | .error e => .error e
-      | .ok (s', st') => .ok (emit { s' with stm := some st' } p)
+      | .ok (s', st') => .ok (emit { s' with stm := some st', sdata := s.sdata ++ p } p)
 
 /-- overwrite `value.length` bytes at `at` -/
 def patchAt (out : Bytes) (at_ : Nat) (value : Bytes) : Bytes :=
@@ -270,7 +280,7 @@ def streamCloseWith (putS : WState → Nat → Nat → List (Bytes × Obj) → O
       if lengthMismatch st.userLen length then .error .other
       else
         let s2 := emit s1 (kEndstream ++ prettyNL s.opts)
-        let s3 := { s2 with stm := none, after := [] }
+        let s3 := { s2 with stm := none, after := [], sdoc := s2.sdoc ++ [(st.num, st.gen, st.dict, s.sdata)] }
         replayWith putS s3 s2.after
 
 /-- `Put` of a stream object while no stream is open: `OpenStream`, `io.Copy`, `Close` -/
